@@ -522,7 +522,10 @@ def case_variant(rng, s):
 def gen_custom_map(rng, ident, flavour):
     """One map dictionary {"identifier", "to": pairs|None, "fro": pairs|None}; Wf unless the flavour says otherwise."""
     n = rng.randint(1, 6)
-    locs = rng.sample(LOCALS, n)
+    locs = []
+    for l in rng.sample(LOCALS, n):  # no accidental case collisions: those are a flavour of their own
+        if l.lower() not in {x.lower() for x in locs}:
+            locs.append(l)
     to, fro = {}, {}
     for i, l in enumerate(locs):
         w = wire_name(rng, rng.randrange(40))
